@@ -12,6 +12,7 @@ mod e_aspace;
 mod e_nodemgmt;
 mod e_handshake;
 mod e_renew;
+mod e_renewsend;
 mod e_locks;
 mod e_services;
 mod e_lockconfirm;
@@ -51,6 +52,7 @@ fn run_case(engine: &str, case: &Value, out: &mut Obs) {
         "nodemgmt" => e_nodemgmt::run_case(case, out),
         "handshake" => e_handshake::run_case(case, out),
         "renew" => e_renew::run_case(case, out),
+        "renewsend" => e_renewsend::run_case(case, out),
         "locks" => e_locks::run_case(case, out),
         "services" => e_services::run_case(case, out),
         "lockconfirm" => e_lockconfirm::run_case(case, out),
